@@ -402,7 +402,9 @@ class MeiParser(object):
             )
             if tuplet_mod is not None:
                 # consider time modifications keeping the numerator of the minimized fraction
-                minimized_fraction = Fraction(intsymdur * tuplet_mod[1], tuplet_mod[0])
+                minimized_fraction = (
+                    Fraction(intsymdur) * tuplet_mod[1] / tuplet_mod[0]
+                )
                 intsymdur = minimized_fraction.numerator
             # double the value if we have dots, to be sure be able to encode that with integers in partitura
             durs.append(intsymdur * (2**dots))
